@@ -9,7 +9,7 @@ SPEC = {
              "(typed option encoders with every sample of their generated argument domain: each struct field at its boundaries, vectors of length "
              "0,1,2,3,9), plus raw add_option (3 types x lengths 0/3/9) and remove_option (first / second option) on the option-carrying classes; "
              "depth 2 quick / 3 thorough with the sample set narrowing with depth (all, 2, 1); states deduplicated on the full getter snapshot x shadow "
-             "model. On every transition: a rejected call leaves the object unchanged; getter after setter returns the argument (first matching option for "
+             "model. Before any edit: two default objects built over differently pre-filled memory have equal getters and equal serializations. On every transition: a rejected call leaves the object unchanged; getter after setter returns the argument (first matching option for "
              "additive setters); no unrelated getter moves; every earlier value is still returned; and in every state serialize() of the object parsed "
              "back by its own class gives the same getter snapshot except derived fields. distinct_nontrivial = states with a non-empty shadow model."),
     "claim": "Every setter of every class with every argument sample, and all ordered pairs (triples in thorough) of them, are executed against the shadow model and sent through the wire.",
